@@ -109,17 +109,17 @@ def main():
             jobs.append((s, rng.choice([0, 0, 1, 7])))
         jobs = [(i + 1, s, c) for i, (s, c) in enumerate(jobs)]
 
-    # ---- round trip through this package's own client: messages (lines over the alphabet, CR-free,
-    # complete) are sent by the real qmail-remote to the scripted server; the payload it produced is
+    # ---- round trip through this package's own client: messages (lines over the alphabet, bare CRs
+    # included, complete) are sent by the real qmail-remote to the scripted server; the payload it produced is
     # then fed to the real qmail-smtpd and must be stored as exactly the original message
     orig = {}
     if not a.replay:
         sys.path.insert(0, os.path.dirname(os.path.abspath(__file__)))
         import c06
-        msgs = [m for m in c06.enum_messages(5 if thorough else 4) if 13 not in m and (not m or m[-1] == 10)]
+        msgs = [m for m in c06.enum_messages(6 if thorough else 5) if not m or m[-1] in (10, 13)]
         for _ in range(60):
             ln = ck.rng.randint(1, 1500)
-            msgs.append([ck.rng.choice([10, 46, 46, 120, 120, 120, ck.rng.randrange(32, 127)]) for _ in range(ln)] + [10])
+            msgs.append([ck.rng.choice([10, 46, 46, 120, 120, 120, 13, ck.rng.randrange(32, 127)]) for _ in range(ln)] + [10])
         brecs = c06.binary_records(ck, tree, msgs)
         n0 = len(jobs)
         for r in brecs:
